@@ -209,6 +209,38 @@ def whole_writes(E, f):
     return out, part
 
 
+def unit_init_must_write(R, F, tag):
+    # unit initialisation (the start of every solve with a nonsymmetric cone) must overwrite both vectors of every
+    # cone wholly, on every path: a cone that leaves part of (z, s) alone starts the second solve from the first
+    # solve's last iterate
+    WHOLE = ('fill', 'set', 'copy_from', 'copy_from_slice', 'clone_from_slice')
+    nu = 0
+    for f in F.find(name='unit_initialization', trait='Cone'):
+        K = last_seg(strip_generics(f.impl_adt or f.impl_self or '?'))
+        if K in ('CompositeCone', 'SupportedCone'):
+            continue
+        nu += 1
+        for val, ret, ev, tr in Walker(f, cut_loops=True).leaves():
+            if ret[0] == 'diverge':
+                continue
+            for a in ('arg2', 'arg3'):
+                whole = any(e[0] == 'call' and e[1] in WHOLE and split_args(e[2])[0] == a for e in ev)
+                idx = set(e[1] for e in ev if e[0] == 'store' and re.fullmatch(re.escape(a) + r'\[\d+_usize\]', str(e[1])))
+                three = idx == {'%s[%d_usize]' % (a, k) for k in range(3)} and K in ('ExponentialCone', 'PowerCone')
+                parts = [split_args(e[2])[0] for e in ev if e[0] == 'call' and e[1] in WHOLE + ('scalarop_from', 'scalarop') and split_args(e[2])[0].startswith(('index_mut(%s, Range' % a, 'index(%s, Range' % a))]
+                lo = [p_ for p_ in parts if 'RangeTo(' in p_]
+                hi = [p_ for p_ in parts if 'RangeFrom(' in p_]
+                split = False
+                if len(lo) == 1 and len(hi) == 1:
+                    m1 = re.search(r'RangeTo\((.*)\)\)$', lo[0])
+                    m2 = re.search(r'RangeFrom\((.*)\)\)$', hi[0])
+                    split = bool(m1 and m2 and m1.group(1) == m2.group(1))
+                R.check(whole or three or split, 'unit-init-writes-all|%s|%s%s' % (K, a, tag),
+                        '%s::unit_initialization does not overwrite its %s argument wholly on every path (whole-vector writes: %s, element stores: %s): '
+                        'a re-solve would start from the previous solve\'s values there' % (K, 'z' if a == 'arg2' else 's', whole, sorted(idx)), f.loc())
+    R.check(nu >= 5, 'unit-init-cones' + tag, 'only %d cone types with unit_initialization analysed' % nu)
+
+
 def fresh_start(rep, F, E, G, tag):
     R = rep.rule('C05.R6', 'every solve starts from scratch: reset + default_start before the loop, all iterate '
                            'components written, identity scaling rewrites every scaling field the KKT update reads')
@@ -275,35 +307,7 @@ def fresh_start(rep, F, E, G, tag):
                             K, '.'.join(e[1] for e in p), 'only element-wise' if covered(p, part) else 'not at all'),
                         sid.loc())
         R.check(ncones >= 3, 'identity-cones' + tag, 'only %d symmetric cone types analysed' % ncones)
-        # unit initialisation (the start of every solve with a nonsymmetric cone) must overwrite both vectors of every
-        # cone wholly, on every path: a cone that leaves part of (z, s) alone starts the second solve from the first
-        # solve's last iterate
-        WHOLE = ('fill', 'set', 'copy_from', 'copy_from_slice', 'clone_from_slice')
-        nu = 0
-        for f in F.find(name='unit_initialization', trait='Cone'):
-            K = last_seg(strip_generics(f.impl_adt or f.impl_self or '?'))
-            if K in ('CompositeCone', 'SupportedCone'):
-                continue
-            nu += 1
-            for val, ret, ev, tr in Walker(f, cut_loops=True).leaves():
-                if ret[0] == 'diverge':
-                    continue
-                for a in ('arg2', 'arg3'):
-                    whole = any(e[0] == 'call' and e[1] in WHOLE and split_args(e[2])[0] == a for e in ev)
-                    idx = set(e[1] for e in ev if e[0] == 'store' and re.fullmatch(re.escape(a) + r'\[\d+_usize\]', str(e[1])))
-                    three = idx == {'%s[%d_usize]' % (a, k) for k in range(3)} and K in ('ExponentialCone', 'PowerCone')
-                    parts = [split_args(e[2])[0] for e in ev if e[0] == 'call' and e[1] in WHOLE + ('scalarop_from', 'scalarop') and split_args(e[2])[0].startswith(('index_mut(%s, Range' % a, 'index(%s, Range' % a))]
-                    lo = [p_ for p_ in parts if 'RangeTo(' in p_]
-                    hi = [p_ for p_ in parts if 'RangeFrom(' in p_]
-                    split = False
-                    if len(lo) == 1 and len(hi) == 1:
-                        m1 = re.search(r'RangeTo\((.*)\)\)$', lo[0])
-                        m2 = re.search(r'RangeFrom\((.*)\)\)$', hi[0])
-                        split = bool(m1 and m2 and m1.group(1) == m2.group(1))
-                    R.check(whole or three or split, 'unit-init-writes-all|%s|%s%s' % (K, a, tag),
-                            '%s::unit_initialization does not overwrite its %s argument wholly on every path (whole-vector writes: %s, element stores: %s): '
-                            'a re-solve would start from the previous solve\'s values there' % (K, 'z' if a == 'arg2' else 's', whole, sorted(idx)), f.loc())
-        R.check(nu >= 5, 'unit-init-cones' + tag, 'only %d cone types with unit_initialization analysed' % nu)
+        unit_init_must_write(R, F, tag)
         # prev_* readers
         for fld in ('prev_res_primal', 'prev_res_dual', 'prev_gap_abs', 'prev_gap_rel', 'prev_cost_primal', 'prev_cost_dual'):
             for f in F.fns:
